@@ -237,11 +237,22 @@ def inner_forwarding_contract(which):
         calls = []
         cls = getattr(importlib.import_module(f"{P}.{modname}"), which)
 
+        built = []
+
         def pfd(I2, args, kwargs):
             calls.append(("property_from_data", dict(kwargs), list(args)))
             from openapi_python_client.parser.errors import PropertyError
             if I2.branch_free():
-                res = SOpaque("inner", cls=object)
+                if which == "UnionProperty" and I2.branch_free():
+                    # the member is itself a union (e.g. a $ref to a oneOf schema): its members take its place, in order
+                    from openapi_python_client.parser.properties.union import UnionProperty as _UP
+                    inner = [SOpaque(f"nested{len(built)}a", cls=object), SOpaque(f"nested{len(built)}b", cls=object)]
+                    res = SObj(_UP, {"name": "n", "required": True, "default": None, "python_name": "n", "description": None,
+                                     "example": None, "inner_properties": SList(list(inner))})
+                    built.append(inner)
+                else:
+                    res = SOpaque(f"inner{len(built)}", cls=object)
+                    built.append([res])
             else:
                 res = SObj(PropertyError, {"detail": None, "data": None, "header": "", "level": None})
             return STuple([res, kwargs.get("schemas")])
@@ -266,7 +277,7 @@ def inner_forwarding_contract(which):
         if which == "ListProperty":
             kw["process_properties"] = SBool(z3.Const("process_properties", z3.BoolSort()))
         return SFunc("pyfunc", cls.build.__func__, self_val=cls), [], kw, {"calls": calls, "roots": roots, "shape": shape, "data": data,
-                                                                            "item": item}
+                                                                            "item": item, "built": built}
 
     def members(ctx):
         """ListProperty: the element schema handed on is the one schema given, or anyOf of ALL of them in order; the document's
@@ -294,6 +305,14 @@ def inner_forwarding_contract(which):
         if len(datas) < len(want):
             # stopped early: only after a member failed
             return isinstance(ctx.value, STuple) and isinstance(ctx.value.items[0], SObj) and ctx.value.items[0].cls.__name__ == "PropertyError"
+        res = ctx.value.items[0] if isinstance(ctx.value, STuple) else None
+        if isinstance(res, SObj) and res.cls.__name__ == "UnionProperty":
+            # the members of the result are the built members in DOCUMENT order, a nested union replaced by its own members in
+            # place (the decoder tries them in this order: first match wins)
+            flat = [x for group in i["built"] for x in group]
+            got = res.fields.get("inner_properties")
+            if not isinstance(got, SList) or len(got.items) != len(flat) or any(a is not b for a, b in zip(got.items, flat)):
+                return False
         return True
 
     def forwarded(ctx):
@@ -306,10 +325,11 @@ def inner_forwarding_contract(which):
     cl2 = Clause("every-member-schema-built-once-and-document-unchanged", members,
                  statement=("the element schema is the single item schema or anyOf(prefixItems + [items]) with every one of them, in "
                             "order; the schema object of the document (its prefixItems list) is left as it was") if which == "ListProperty"
-                 else "every member of anyOf + oneOf is built exactly once, in order (none dropped or merged before it is resolved)",
-                 props=["C17", "C20", "C12", "C07"])
-    return FnContract(f"{P}.{modname}:{which}.build", [Case("generic", make, [cl, cl2], raises=(Exception,),
-                                                            props=["C01", "C08", "C17", "C20", "C12", "C07"])])
+                 else "every member of anyOf + oneOf is built exactly once, in order (none dropped or merged before it is resolved); the "
+                      "result lists the built members in document order, a nested union replaced in place by its own members",
+                 props=["C17", "C20", "C12", "C07", "C02"])
+    return FnContract(f"{P}.{modname}:{which}.build", [Case("generic", make, [cl, cl2], raises=(),
+                                                            props=["C01", "C08", "C17", "C20", "C12", "C07", "C02"])])
 
 
 def discharge(rep, kf, prop, tier, seed):
@@ -328,7 +348,7 @@ def discharge(rep, kf, prop, tier, seed):
         r = core.Report(prop, tier, seed)
         engine_b.discharge(r, kf, [inner_forwarding_contract("ListProperty"), inner_forwarding_contract("UnionProperty")], prop, tier, seed)
         return r
-    if prop in ("C01", "C08", "C17", "C20", "C12", "C07"):
+    if prop in ("C01", "C08", "C17", "C20", "C12", "C07", "C02"):
         tasks.append(inner)
     for r in core.run_parallel(tasks):
         r.obligations = [o for o in r.obligations if prop in o.props or o.id.endswith("no-exception-escapes")]
